@@ -159,9 +159,9 @@ async def run_target(target, proto, muts, seedsel):
         if target == "discovery":
             return mutate(raw) if is_probe else raw
         return raw if is_probe else mutate(raw)
-    real_t, real_u = _t.time, U.time
-    _t.time = lambda: 70000
-    U.time = lambda: 70000
+    import puresnmp.api.raw, puresnmp_plugins.security.usm  # noqa
+    _clk = patched_clock(lambda: 70000)
+    _clk.__enter__()
     try:
         c = make_client(ag, proto, sender=sender)
         await c.get(OID(oidstr(INST)))           # warm up (discovery, plug-in loading, key localisation) - keeps the memory measurement honest
@@ -228,7 +228,7 @@ async def run_target(target, proto, muts, seedsel):
             out.append(dict(e="case", target=target, proto=proto, mut=list(m), len=max(state["seed_len"], 1) if m[0] not in ("huge", "nest", "nest_tail", "random") else 65000,
                             outcome=outcome, cpu_ms=int(cpu * 1000), rss_growth_kb=max(0, rss_kb() - r0), followup_ok=bool(ok)))
     finally:
-        _t.time, U.time = real_t, real_u
+        _clk.__exit__(None, None, None)
     return out
 
 
